@@ -616,7 +616,21 @@ def leafAt (t : Trie Nat) (x : Path) : Bool :=
   | some (.leaf _) => true
   | _ => false
 
-def accesses (s : Cfg n) : Label n → List Access
+/-- locks under which `internalDelete` reads node `x`: the root write lock taken by
+`DeleteConditional`/`WalkDeleted`, and — `nl = true`, the code as it is — the node's own read
+lock for every non-root node (`t.mu.RLock(); lb = t.leafBranch; t.mu.RUnlock()`).
+`nl = false` is the code before that repair (kept for the regression witness D15). -/
+def delReadLocks (nl : Bool) (x : Path) : List (Path × Mode) :=
+  if nl && x != [] then [([], .W), (x, .R)] else [([], .W)]
+
+/-- `internalDelete` on node `x`: one read of `leafBranch` (under `delReadLocks`), and for a
+branch node (and the root) the later writes `delete(b, k)` / `t.leafBranch = nil`, which run
+under the root write lock only -/
+def delAccesses (nl : Bool) (s : Cfg n) (τ : Fin n) (x : Path) : List Access :=
+  ⟨τ.val, x, s.gens x, false, delReadLocks nl x, .del⟩ ::
+    (if leafAt s.trie x then [] else [⟨τ.val, x, s.gens x, true, [([], .W)], .del⟩])
+
+def accesses (nl : Bool) (s : Cfg n) : Label n → List Access
   | .rlockRoot τ => [⟨τ.val, [], s.gens [], false, [([], .R)], .tree⟩]
   | .rlockChild τ =>
       let th := s.thr τ
@@ -652,7 +666,7 @@ def accesses (s : Cfg n) : Label n → List Access
   | .delete τ =>
       match (s.thr τ).call with
       | .del q _ =>
-          (touched s.trie q).map (fun x => ⟨τ.val, x, s.gens x, !leafAt s.trie x, [([], .W)], .del⟩)
+          ((touched s.trie q).map (delAccesses nl s τ)).flatten
       | _ => []
   | .hval τ h => [⟨τ.val, h.path, h.gen, false, [(h.path, .R)], .hval⟩]
   | .hupd τ h _ => [⟨τ.val, h.path, h.gen, true, [(h.path, .W)], .hupd⟩]
